@@ -457,6 +457,19 @@ where
         }
     }
 
+    fn pre_reorder(&self, _manager: &M) {
+        // Memoised results may depend on the set of variables (e.g., in ZBDDs,
+        // where results can contain the tautology over all variables), so no
+        // entry must outlive `Manager::add_vars()` & co. In case of
+        // `Manager::reorder()`, `pre_gc()` has already cleared and locked all
+        // entries, hence `try_lock()`.
+        for entry in &*self.0 {
+            if let Some(mut entry) = entry.try_lock() {
+                entry.clear();
+            }
+        }
+    }
+
     unsafe fn post_gc(&self, _manager: &M) {
         for entry in &*self.0 {
             // SAFETY: `post_gc()` is called at most once after `pre_gc()` and
